@@ -4,17 +4,21 @@
 (* string as the sequence of its characters (lossless).  The verdict is the  *)
 (* first failing oracle clause of Stats!ReadableClause; pos = 1 when the     *)
 (* design layer (Threshold as configured) predicts a different string        *)
-(* (reported as DRIFT by the harness, never a verdict).                      *)
+(* (reported as DRIFT by the harness, never a verdict); the design is only   *)
+(* consulted for the cases the harness marks with d = 1.                     *)
 EXTENDS Stats, Json, IOUtils, TLC
 
 Cases == ndJsonDeserialize(IOEnv.TRACE_FILE)
-VARIABLE tid
-Init == tid \in 1..Len(Cases)
-Next == UNCHANGED tid
-Spec == Init /\ [][Next]_tid
+\* The verdict is computed on the SUCCESSOR state (done = TRUE): TLC generates
+\* initial states in one thread but explores successors with all workers.
+VARIABLES tid, done
+Init == tid \in 1..Len(Cases) /\ done = FALSE
+Next == ~done /\ done' = TRUE /\ UNCHANGED tid
+Spec == Init /\ [][Next]_<<tid, done>>
 
-Emit == LET c == Cases[tid]
+Emit == done =>
+        LET c == Cases[tid]
             cl == ReadableClause(c.n, c.s)
-            drift == IF DesignFormat(c.n) = c.s THEN 0 ELSE 1
+            drift == IF c.d = 0 \/ DesignFormat(c.n) = c.s THEN 0 ELSE 1
         IN PrintT(<<"VERDICT", tid, IF cl = "ok" THEN "ok" ELSE "bad", cl, drift>>)
 =============================================================================
